@@ -50,6 +50,7 @@ func TestC06(t *testing.T) {
 	cfg.SmallBatches = true
 	cfg.FailingPct = 10
 	cfg.Choices = 120
+	cfg.MetaFirstPct = 20
 	enumerated := 0
 	runProp(t, c, func(rt *rapid.T) {
 		plan := enginesim.GenPlan(rt, cfg)
@@ -94,19 +95,24 @@ func TestC06(t *testing.T) {
 			}
 		}
 		for j := 0; j < inserts; j++ {
-			p := *plan
-			p.FaultAt = []int{j}
-			r := runEngine(t, rt, c, &p)
-			if r == nil {
-				continue
-			}
-			if !judge(r, fmt.Sprintf("fault@%d", j)) {
-				return
+			// a dying process does not stop atomically: also let requests that are past their
+			// wait for persistence run on for a few steps after the runner has panicked
+			for _, grace := range []int{0, 6} {
+				p := *plan
+				p.FaultAt = []int{j}
+				p.DeathGrace = grace
+				r := runEngine(t, rt, c, &p)
+				if r == nil {
+					continue
+				}
+				if !judge(r, fmt.Sprintf("fault@%d+grace%d", j, grace)) {
+					return
+				}
 			}
 		}
 		enumerated++
 		c.Add("histories_enumerated", 1)
 		c.Add("crash_points_enumerated", base.Steps+1)
-		c.Add("store_faults_enumerated", inserts)
+		c.Add("store_faults_enumerated", 2*inserts)
 	})
 }
